@@ -470,15 +470,26 @@ fn option_var_case<K: Key, const M: usize>(utf8: bool) {
     let m = K::min_encoded_key().unwrap();
     assert!(opt_valid(&m, utf8) && opt_order(&m, a) != Ordering::Greater);
     if opt_order(a, b) == Ordering::Less {
-        let s = K::separator(a, b);
-        assert!(opt_valid(&s, utf8), "separator is a valid Option encoding");
-        assert!(opt_order(a, &s) != Ordering::Greater, "left <= separator");
-        assert!(opt_order(&s, b) == Ordering::Less, "separator < right");
-        assert!(s.len() <= a.len());
-        check_separator::<K>(a, b, &s);
+        let sep = K::separator(a, b);
+        assert!(sep.len() <= a.len() && sep.len() <= M, "separator no longer than left");
+        // copy the (possibly heap-allocated, symbolic-length) separator into a local array with
+        // concrete indices: running the oracles on the Vec itself exhausts CBMC's array theory
+        let mut sb = [0u8; M];
+        let mut i = 0usize;
+        while i < M {
+            if i < sep.len() {
+                sb[i] = sep[i];
+            }
+            i += 1;
+        }
+        let s = &sb[..sep.len()];
+        assert!(opt_valid(s, utf8), "separator is a valid Option encoding");
+        assert!(opt_order(a, s) != Ordering::Greater, "left <= separator");
+        assert!(opt_order(s, b) == Ordering::Less, "separator < right");
+        check_separator::<K>(a, b, s);
         kani::cover!(s.len() < a.len(), "shortened payload behind the tag");
         kani::cover!(a[0] == 0, "left is None");
-        core::mem::forget(s);
+        core::mem::forget(sep);
     }
     core::mem::forget(m);
 }
@@ -496,25 +507,25 @@ fn c15_option_bytes() {
 // @harness props=C15 tier=quick timeout=1200 mem=16 stubbing=1 replay=native
 // @desc Option<&str>: as Option<&[u8]>, payloads well-formed UTF-8, separator payload well-formed
 // @functions <Option<&str> as Key>::{compare,separator,min_encoded_key}, <&str as Key>::{compare,separator}
-// @bound both encodings arbitrary valid Option<&str> encodings of 1..=3 bytes (tag + one 2-byte character)
+// @bound both encodings arbitrary valid Option<&str> encodings of 1..=4 bytes (tag + one 3-byte character)
 // @stubs core::str::from_utf8 -> from_utf8_stub
 #[kani::proof]
 #[kani::unwind(7)]
 #[kani::stub(core::str::from_utf8, from_utf8_stub)]
 fn c15_option_str() {
-    option_var_case::<Option<&str>, 3>(true);
+    option_var_case::<Option<&str>, 4>(true);
 }
 
 // @harness props=C15 tier=thorough timeout=3600 mem=40 stubbing=1 replay=native
-// @desc as c15_option_str with encodings of 1..=4 bytes (attempted: the 12 GB quick cap was not enough)
+// @desc as c15_option_str with encodings of 1..=5 bytes (tag + one 4-byte character)
 // @functions <Option<&str> as Key>::{compare,separator,min_encoded_key}
-// @bound both encodings arbitrary valid Option<&str> encodings of 1..=4 bytes
+// @bound both encodings arbitrary valid Option<&str> encodings of 1..=5 bytes
 // @stubs core::str::from_utf8 -> from_utf8_stub
 #[kani::proof]
 #[kani::unwind(7)]
 #[kani::stub(core::str::from_utf8, from_utf8_stub)]
-fn c15_option_str_le4() {
-    option_var_case::<Option<&str>, 4>(true);
+fn c15_option_str_le5() {
+    option_var_case::<Option<&str>, 5>(true);
 }
 
 // round trip of Option<&[u8]> through as_bytes / from_bytes, payload length case-split
@@ -761,16 +772,27 @@ fn arr2_sep_case<const A0: usize, const A1: usize, const TA: usize, const B0: us
     let want = arr2_order(&ea, &eb);
     assert!(<[&[u8]; 2] as Key>::compare(&ea, &eb) == want, "compare is element-wise byte order");
     if want == Ordering::Less {
-        let s = <[&[u8]; 2] as Key>::separator(&ea, &eb);
-        assert!(arr2_valid(&s), "separator is a well-formed array encoding");
-        assert!(arr2_order(&ea, &s) != Ordering::Greater, "left <= separator");
-        assert!(arr2_order(&s, &eb) == Ordering::Less, "separator < right");
-        assert!(s.len() <= ea.len());
+        let sep = <[&[u8]; 2] as Key>::separator(&ea, &eb);
+        assert!(sep.len() <= ea.len(), "separator no longer than left");
+        // copy into a local array with concrete indices before running the oracles (a heap
+        // result of symbolic length exhausts CBMC's array theory)
+        let mut sb = [0u8; TA];
+        let mut i = 0usize;
+        while i < TA {
+            if i < sep.len() {
+                sb[i] = sep[i];
+            }
+            i += 1;
+        }
+        let s = &sb[..sep.len()];
+        assert!(arr2_valid(s), "separator is a well-formed array encoding");
+        assert!(arr2_order(&ea, s) != Ordering::Greater, "left <= separator");
+        assert!(arr2_order(s, &eb) == Ordering::Less, "separator < right");
         // the real comparator accepts it without panicking and agrees
-        assert!(<[&[u8]; 2] as Key>::compare(&ea, &s) != Ordering::Greater);
-        assert!(<[&[u8]; 2] as Key>::compare(&s, &eb) == Ordering::Less);
+        assert!(<[&[u8]; 2] as Key>::compare(&ea, s) != Ordering::Greater);
+        assert!(<[&[u8]; 2] as Key>::compare(s, &eb) == Ordering::Less);
         kani::cover!(s.len() < ea.len(), "array separator shortened");
-        core::mem::forget(s);
+        core::mem::forget(sep);
     }
 }
 
